@@ -1,0 +1,11 @@
+//go:build !verif
+
+package jsonata
+
+import (
+	"reflect"
+
+	"github.com/blues/jsonata-go/jtypes"
+)
+
+func verifGate(point string, fn jtypes.Callable, ctx reflect.Value) {}
